@@ -719,6 +719,10 @@ def att_mnemo_generic(i, s, m):
         ]:
             if i.operands[1]._is_mem:
                 m += {32: "l", 64: "q"}[i.operands[1].size]
+        elif m == "lgdt":
+            # the operand is a 16-bit limit followed by the base: the
+            # suffix tells the operand-size attribute, i.e. the base width
+            m += {16: "w", 32: "l", 64: "q"}[i.operands[0].size - 16]
         else:
             m += {8: "b", 16: "w", 32: "l", 64: "q"}[i.operands[0].size]
     elif m in att_mnemo_float_optional_suffix:
